@@ -13,13 +13,13 @@ PROPS = {
     "C19": {
         "level": "proof",
         "technique": "deductive verification of the real functions against sidecar contracts (pyvc VC generation + z3/cvc5), property lemma over the contracts; bounded run-time oracle as cross-check",
-        "level_text": "Every interval predicate of Fragment (overlaps, overlap_length, abuts, gap_between, and the class invariant start <= end they rest on) is proved, for all integers, to meet a contract transcribed from the statement; the consistency clauses (symmetry, overlap iff a shared base, exactly one of overlap/abut/positive gap, abut iff gap zero, length = size of the intersection and absent otherwise) are a lemma over those contracts. The scan is proved for every assembly: Scaffold.fragments yields exactly the Fragment rows, each at the position given by the number of Fragment rows before it; Assembly.find_overlapping_fragments (with all_vs_all_fragments executed in place, since it takes the comparison as a callback) flattens all scaffolds into one list in which every fragment row of every scaffold stands at its own position with its scaffold (positions of scaffold t lie in [tot[t], tot[t+1]) and follow the row order), compares every i < j, and returns None exactly when no pair overlaps, otherwise a list with as many entries as there are overlapping pairs i < j in which each such pair stands at the position given by the number of overlapping pairs before it - so every unordered pair that overlaps (by the proved predicate: same contig name and a shared base) is reported once and nothing else is. The CLI report (one text block per returned pair) is decided by the bounded tier only.",
-        "level_note": "Trusted: the pyvc encoding of Python (DESIGN.md 3.1/3.3), the SMT solvers. The three counting functions (fragment rows before a row, overlapping partners before j, overlapping pairs before row i) are defined by their recurrences, assumed as preconditions (conservative definitions). That distinct pairs have distinct positions and that positions below the total are all taken follows from the recurrences by induction; that step is argued in DESIGN.md, not discharged. BOUNDED (not proved): asm_format.process_fh / report_overlaps.",
+        "level_text": "Every interval predicate of Fragment (overlaps, overlap_length, abuts, gap_between, and the class invariant start <= end they rest on) is proved, for all integers, to meet a contract transcribed from the statement; the consistency clauses (symmetry, overlap iff a shared base, exactly one of overlap/abut/positive gap, abut iff gap zero, length = size of the intersection and absent otherwise) are a lemma over those contracts. The scan is proved for every assembly: Scaffold.fragments yields exactly the Fragment rows, each at the position given by the number of Fragment rows before it; Assembly.find_overlapping_fragments (with all_vs_all_fragments executed in place, since it takes the comparison as a callback) flattens all scaffolds into one list in which every fragment row of every scaffold stands at its own position with its scaffold (positions of scaffold t lie in [tot[t], tot[t+1]) and follow the row order), compares every i < j, and returns None exactly when no pair overlaps, otherwise a list with as many entries as there are overlapping pairs i < j in which each such pair stands at the position given by the number of overlapping pairs before it - so every unordered pair that overlaps (by the proved predicate: same contig name and a shared base) is reported once and nothing else is. The report of the command line, asm_format.report_overlaps, is proved to write one heading and then exactly one block per pair it is handed, in order, to STDERR and nothing to STDOUT (what a block says is text and opaque to the proof). The two lines of glue in asm_format.process_fh that hand the scan's result to the report (only with --qc-overlaps, only if there is a pair) and the wording of the blocks are decided by the bounded tier only.",
+        "level_note": "Trusted: the pyvc encoding of Python (DESIGN.md 3.1/3.3), the SMT solvers. The three counting functions (fragment rows before a row, overlapping partners before j, overlapping pairs before row i) are defined by their recurrences, assumed as preconditions (conservative definitions). That distinct pairs have distinct positions and that positions below the total are all taken follows from the recurrences by induction; that step is argued in DESIGN.md, not discharged. The console streams behind click.echo are ghost objects (trusted model: one chunk appended per call). BOUNDED (not proved): asm_format.process_fh (dispatch), the text of the report.",
         "lemmas": ["c19_predicates_consistent"],
         "bounded": [("bounded.c19", {})],
         "trusted": PREDICATE_TRUSTED + ["xs.extend(f(x) for x in ys) adds what xs.extend([f(x) for x in ys]) adds; a list comprehension without condition is the element-wise image of its list (DESIGN.md 3.1)"],
-        "assumptions": ["asm_format.report_overlaps (text output) is exercised by the bounded tier only"],
-        "explanation": "interval predicates and the all-vs-all scan proved against contracts taken from the statement; CLI report bounded",
+        "assumptions": ["asm_format.process_fh (dispatch between parser, scan, report and writer) and the wording of the report are exercised by the bounded tier only"],
+        "explanation": "interval predicates, the all-vs-all scan and the report loop proved against contracts taken from the statement; the dispatch glue of the command line and the report text bounded",
     },
     "C11": {
         "level": "other",
